@@ -1,13 +1,13 @@
 #!/bin/bash
 # usage: tools/seedrun_wt.sh <PROP> <patch.diff> <worktree> [tier]  -- like seedrun.sh but against a scratch worktree (VERIF_REPO),
-# for preliminary runs while /repo is busy.  The recorded matrix (seedmatrix.sh) always applies the change to /repo itself.
+# so that /repo stays untouched (seedmatrix.sh uses this with its own worktree).
 set -u
 PROP=$1; PATCH=$2; WT=$3; TIER=${4:-quick}
 git -C $WT checkout -q --detach $(git -C /repo rev-parse HEAD) 2>/dev/null; git -C $WT checkout -- .
 git -C $WT apply "$PATCH" || { echo "patch does not apply"; exit 9; }
 cd /verif
-VERIF_REPO=$WT # (the whole output is captured first: cutting it with head while the check still writes would kill the check)
-OUT=$(/venv/bin/python -m mc.run $PROP --tier $TIER --no-confirm 2>&1); rc=$?
+# (the whole output is captured first: cutting it with head while the check still writes would kill the check)
+OUT=$(VERIF_REPO=$WT /venv/bin/python -m mc.run $PROP --tier $TIER --no-confirm 2>&1); rc=$?
 echo "$OUT" | grep -v condarc | grep -E "VIOLATION|signature|tier=|HARNESS|KNOWN" | cut -c1-220 | head -${SEEDRUN_LINES:-14}
 git -C $WT checkout -- .
 find $WT -name __pycache__ -prune -exec rm -rf {} + 2>/dev/null
